@@ -5,6 +5,7 @@ use std::collections::BTreeMap;
 
 pub mod base;
 pub mod f1;
+pub mod f6;
 pub mod families;
 
 pub fn generate(family: &str, seed: u64, index: u64) -> Option<Plan> {
